@@ -616,6 +616,38 @@ def rule_f(ctx: Context, R: Reporter, wrapper: FuncInfo, disp: FuncInfo):
     R.floor("C13.f", "reads of the pool option", n, 5)
 
 
+def rule_g(ctx: Context, R: Reporter, wrapper: FuncInfo, disp: FuncInfo):
+    """C13.g  worker pools live for one evaluation (or are the user's): a pool the library creates is never kept in
+    process-lifetime storage -- a module-level container, a global, a class attribute.  Forked workers keep the
+    module globals of the moment they were started, so a cached pool evaluates a later run's likelihood against
+    stale data and the pooled run differs from the serial one."""
+    POOLS = ("Pool", "ThreadPool", "ProcessPoolExecutor", "ThreadPoolExecutor", "get_context")
+    n = 0
+    for fi in ctx.prog.functions.values():
+        globals_ = {g for x in walk_no_nested(fi.node) if isinstance(x, ast.Global) for g in x.names}
+        modconsts = set(fi.module.constants)
+        for st in walk_no_nested(fi.node):
+            if not isinstance(st, ast.Assign):
+                continue
+            if not any(isinstance(c, ast.Call) and dotted(c.func).split(".")[-1] in POOLS for c in ast.walk(st.value)):
+                continue
+            n += 1
+            why = None
+            for t in st.targets:
+                for tt in (t.elts if isinstance(t, (ast.Tuple, ast.List)) else [t]):
+                    base = tt
+                    while isinstance(base, ast.Subscript):
+                        base = base.value
+                    if isinstance(base, ast.Name) and (base.id in globals_ or (isinstance(tt, ast.Subscript) and base.id in modconsts)):
+                        why = f"the module-level `{base.id}`"
+                    elif isinstance(base, ast.Attribute) and isinstance(base.value, ast.Name) and (base.value.id == "cls" or (fi.cls is not None and base.value.id == fi.cls.name)):
+                        why = f"the class attribute `{unparse(base)}`"
+            R.check("C13.g", "a pool created by the library is not cached for the life of the process", why is None, fi, st,
+                    msg=f"{fi.short}: `{unparse(st)[:70]}` keeps the worker pool in {why}: its workers were forked with the module state of that moment and are reused by later "
+                        f"batches, runs and samplers, so a pooled evaluation can differ from the serial one", key=f"pool-cached:{fi.short}")
+    R.floor("C13.g", "pool creation sites", n, 1)
+
+
 def run(ctx: Context, R: Reporter):
     w = wrapper_fn(ctx)
     d = dispatcher_fn(ctx, w)
@@ -624,6 +656,7 @@ def run(ctx: Context, R: Reporter):
     R.guard(rule_c, ctx, R, w)
     R.guard(rule_e, ctx, R)
     R.guard(rule_f, ctx, R, w, d)
+    R.guard(rule_g, ctx, R, w, d)
 
 
 def variants():
@@ -646,6 +679,7 @@ def variants():
         Variant("c-warmup-miscount", "bad", replace_expr(mu, "Mutator.run", "self.state.get_current('calls') + self.n_particles", "self.state.get_current('calls') + 1"), ["C13.c"]),
         Variant("c-total-added-twice", "bad", insert_after(mu, "Mutator.run", "self.state.set_current('calls', calls)", "self.state.set_current('calls', calls + mcmc_calls)"), ["C13.c"]),
         Variant("c-total-dropped", "bad", replace_stmt(mu, "Mutator.run", "calls = self.state.get_current('calls') + mcmc_calls", "calls = self.state.get_current('calls')"), ["C13.c"]),
+        Variant("g-pool-cached-globally", "bad", replace_stmt(core, "SamplerCore._get_distribute_func", "pool = Pool(self.config.pool)", "global _POOL\n_POOL = pool = Pool(self.config.pool)"), ["C13.g"], quick=True),
         Variant("f-pool-sized-default", "bad", replace_stmt("tempest/config.py", "SamplerConfig.__post_init__", "object.__setattr__(self, 'n_particles', 2 * self.n_dim)", "object.__setattr__(self, 'n_particles', 2 * self.n_dim + (self.pool if isinstance(self.pool, int) else 0))"), ["C13.f"], quick=True),
         Variant("a-lazy-results", "bad", replace_expr(core, "SamplerCore._log_like", "list(self._get_distribute_func()(self.config.log_likelihood, x))", "self._get_distribute_func()(self.config.log_likelihood, x)"), ["C13.a"], quick=True),
         Variant("a-benign-tuple-results", "benign", replace_expr(core, "SamplerCore._log_like", "list(self._get_distribute_func()(self.config.log_likelihood, x))", "tuple(self._get_distribute_func()(self.config.log_likelihood, x))")),
